@@ -315,6 +315,9 @@ pub fn run_sql_check(ctx: &Ctx, which: Which) -> Report {
                     };
                     if !orig.rows.is_empty() {
                         r.distinct_nontrivial += 1;
+                        if r.samples.is_empty() && orig.rows.len() >= 2 {
+                            r.sample(json!({"query": p.gq.sql, "term": p.gq.term, "database": show_db(db), "rows_returned": orig.rows.len(), "declared_size": format!("{:?}", c.size), "declared_schema": c.fields.iter().map(|(n, t, k)| format!("{n}: {t}{}", if k.is_some() { " (UNIQUE)" } else { "" })).collect::<Vec<_>>()}));
+                        }
                     }
                     match which {
                         Which::C07 => {
@@ -343,7 +346,6 @@ pub fn run_sql_check(ctx: &Ctx, which: Which) -> Report {
         head.merge(part);
     }
     // tags coverage
-    head.sample(json!({"query": "SELECT u.city, sum(o.amount) AS s FROM users u LEFT JOIN orders o ON u.id = o.user_id GROUP BY u.city", "database": {"users": ["(1,18,'A')", "(2,20,'B')"], "orders": ["(1,1,NULL)"]}}));
     head.rule = match which {
         Which::C07 => "E-sql queries x all database instances of the tables they read (<= N rows in total, cells from 2-3 value domains incl. NULL and range boundaries, unique columns honoured), tables declared with interval sizes and with the exact instance sizes; oracle: every cell returned by SQLite for the original query is a reference member of the declared column type (NULL iff optional) and the row count lies in the declared size. non-trivial = (query, database) pairs returning at least one row",
         Which::C08 => "E-sql queries x all database instances (as C07); oracle: SQLite result of the original text vs of the rendered text on the same connection: equal multisets, equal sequences under a total ORDER BY, equal column count, equal names where SQL defines them; LIMIT without total order compared by cardinality and inclusion in the un-limited result. non-trivial = pairs returning at least one row",
